@@ -53,6 +53,10 @@ func identsOf(r *kit.Reg) []struct {
 	var out []io
 	switch r.Kind {
 	case "void", "voiderr":
+		if r.Name != "" {
+			// a named function without results is registered under (struct{}, name)
+			return append(out, io{Ident{T: "void", Key: r.Name}, 0})
+		}
 		return nil
 	}
 	if r.ResObj {
@@ -146,8 +150,8 @@ func (m *Model) Registered() []int {
 		}
 	}
 	for i, r := range m.Spec.Regs {
-		if (r.Kind == "void" || r.Kind == "voiderr") && m.AddErr[i] == "" {
-			set[r.ID] = true
+		if (r.Kind == "void" || r.Kind == "voiderr") && m.AddErr[i] == "" && r.Name == "" {
+			set[r.ID] = true // (named ones are in Services and can be removed again)
 		}
 	}
 	var out []int
